@@ -59,13 +59,13 @@ func cycleT1(args []string) error {
 	events := 0
 	var axes []string
 	shapes := map[string]int{}
-	encs := []string{"none", "std-subset", "custom", "holes"}
+	encs := []string{"none", "std-subset", "custom", "holes", "std-plus"}
 	zones := []string{"none", "utc", "named", "unnamed"}
 	for i := 0; i < n; i++ {
 		o := fontgen.Opts{
 			NGlyphs:    []int{1, 2, 5, 17, 60}[i%5],
 			Fractional: i%3 == 1,
-			Encoding:   encs[i%4],
+			Encoding:   encs[(i+i/5)%5],
 			HardString: i%2 == 1,
 			Zone:       zones[(i/4)%4],
 			NonDefault: i%7 < 3,
@@ -73,6 +73,9 @@ func cycleT1(args []string) error {
 		}
 		if i == n-1 && n > 20 {
 			o.NGlyphs = 300
+		}
+		if i == n-2 && n > 20 {
+			o.NGlyphs, o.Huge, o.Fractional = 40, true, false
 		}
 		f := fontgen.Generate(rng, o)
 		fontgen.SegmentShapes(f, shapes)
